@@ -573,6 +573,10 @@ func (w *world) coqCase(c *Case, o observed, hdr jose.Headers, hdrOK bool, paylo
 		sigv = fmt.Sprintf("(SBy %d %s (chars %s))", w.byRef[c.SigKey].id, parenProc(c.SigProc), str(c.SigMsg))
 	}
 
+	if c.HasDet && len(c.Det) > 0 {
+		payload = []byte(c.Det)
+	}
+
 	_, perr := jwt.PayloadToMap(payload)
 
 	obs := "OCrash"
@@ -1397,6 +1401,9 @@ func main() {
 
 	// header JSON: the decoder's view of the header bytes (model decodes the bytes itself)
 	w.headerJSONGroup(rng.Fork(21), int(args.Seed), thorough, tr)
+
+	// claims decoding (jwt.PayloadToMap): payload bytes the model decodes itself
+	w.claimsGroup(rng.Fork(23), int(args.Seed), thorough, tr)
 
 	// CONCURRENT use of verifiers
 	w.concurrent(rng.Fork(15000), thorough, tr)
